@@ -259,6 +259,31 @@ theorem parse_print_den_total (e : Expr) (hb : built Expr.ltE e = true) :
     ∃ e', PyEval.parseY0 Expr.ltE (Print.expr e) = .ok e' ∧
       ∀ (env : Env) (σ' σ : Y0.Val), den env σ' e' σ = den env σ' e σ := parse_print_den Expr.ltE e hb
 
+theorem parse_print_same_text_total (e e' : Expr) (hb : built Expr.ltE e = true) (hs : simple e = true)
+    (hp : PyEval.parseY0 Expr.ltE (Print.expr e) = .ok e') : Print.expr e' = Print.expr e :=
+  parse_print_same_text Expr.ltE e e' hb hs hp
+
+theorem parse_print_never_fails_total (e : Expr) (hb : built Expr.ltE e = true) :
+    ∃ e', PyEval.parseY0 Expr.ltE (Print.expr e) = .ok e' := parse_print_total Expr.ltE e hb
+
+theorem mul_total_den_total (a b : Expr) (ha : nz a = true) (hb : nz b = true) :
+    ∃ c, PyEval.mul Expr.ltE a b = .ok c ∧
+      ∀ (env : Env) (σ' σ : Y0.Val), den env σ' c σ = den env σ' a σ * den env σ' b σ := mul_total_den Expr.ltE a b ha hb
+
+theorem div_total_den_total (a b : Expr) (ha : nz a = true) (hb : nz b = true) :
+    ∃ c, PyEval.div Expr.ltE a b = .ok c ∧
+      ∀ (env : Env) (σ' σ : Y0.Val), den env σ' c σ = den env σ' a σ / den env σ' b σ := div_total_den Expr.ltE a b ha hb
+
+/-- the object-equality clause over constructions, with the text: what the code under test builds from a `namesOnce`
+construction in the simple-division family is returned by the parser and prints the same text -/
+theorem construction_same_text_total (a : Ast) (e e' : Expr) (hn : PyEval.namesOnce a = true)
+    (h : PyEval.evalExpr Expr.ltE a = .ok e) (hs : simple e = true)
+    (hp : PyEval.parseY0 Expr.ltE (Print.expr e) = .ok e') : e' = e ∧ Print.expr e' = Print.expr e := by
+  have hb := (built_of_eval_total a e hn h).1
+  rw [parse_print_eq_total e hb hs] at hp
+  cases hp
+  exact ⟨rfl, rfl⟩
+
 /-! ### reconciliation with the `expr` family's model of the constructors (Y0.Model.Dsl, C10/C11/C13)
 
 `PyEval` is self-contained and parametric in the order; instantiated at `Expr.ltE` its `Product.safe` IS the one of
